@@ -115,8 +115,39 @@ inline std::vector<Family> families(bool thorough, uint64_t seed, int seqlen /*0
 			}
 		} });
 	}
+	// ---- entry at a branch target: [r := K][w1: writer of r that depends on r alone][w2][clobbers][CBRANCH r, taken exactly once per iteration].
+	//      The branch re-enters the code at w2 without passing through w1, so whatever the translator assumed about machine state between w1 and w2
+	//      (a scratch register still holding a constant, a fused pair, flags) must not matter. K is searched with the interpreter's own single step so
+	//      that bits [b, b+8) of r are all ones after w1 (seeded change agent7_C18: the second of two adjacent IMUL_RCP reuses rax).
+	{
+		auto U = [](int r) { std::vector<Word> u = { W(op_of("IMUL_RCP"), r, 0, 0, 3), W(op_of("IMUL_RCP"), r, 0, 0, 6), W(op_of("IMUL_RCP"), r, 0, 0, 0xFFFFFFFFu), W(op_of("IMUL_RCP"), r, 0, 0, 0x80000001u),
+			W(op_of("IMUL_R"), r, r, 0, 0x12345679), W(op_of("IXOR_R"), r, r, 0, 0x7FFFFFFF), W(op_of("ISUB_R"), r, r, 0, 0x80000000u), W(op_of("INEG_R"), r, 0, 0, 0), W(op_of("IROR_R"), r, r, 0, 13), W(op_of("IROL_R"), r, r, 0, 1),
+			W(op_of("IADD_RS"), r, r, 0x08, 0x55) }; return u; };
+		static const int RS[3] = { 1, 4, 6 }; static const int CONDS[3] = { 0, 7, 15 };
+		const size_t NU = U(1).size();
+		fam.push_back({ "entry", (uint64_t)S->size() * NU * 3 * 3, [=](uint64_t idx, bool v2, ProgBuf& p) {
+			set_config_block(p, (int)(idx % ncfg));
+			p.fill_noop();
+			int cond = CONDS[idx % 3]; uint64_t k = idx / 3; int r = RS[k % 3]; k /= 3; Word w1 = U(r)[k % NU]; k /= NU; Word w2 = (*S)[k];
+			if (optype_of(w2.op) == std::string("CBRANCH")) w2 = W(op_of("ISTORE"), (r + 1) & 7, (r + 2) & 7, 0x11, 64);
+			if ((w2.dst & 7) == r) w2.dst = (uint8_t)((w2.dst & 0xF8) | ((r + 1) & 7));
+			if (optype_of(w2.op) == std::string("ISWAP_R") && (w2.src & 7) == r) w2.src = (uint8_t)((w2.src & 0xF8) | ((r + 2) & 7));
+			// search K: after r := sext(K); w1 the bits [b, b+8) of r are all ones  (b = cond + 8)
+			const int b = cond + 8; uint32_t K = 0; bool found = false;
+			{ randomx::NativeRegisterFile nreg; randomx::BytecodeMachine bm; randomx::InstructionByteCode bc; randomx::ProgramConfiguration cfg{}; alignas(64) uint8_t sp[64] = { 0 };
+			  memset(&nreg, 0, sizeof nreg); bm.beginCompilation(nreg); randomx::Instruction ins; ins.opcode = w1.op; ins.dst = w1.dst; ins.src = w1.src; ins.mod = w1.mod; ins.setImm32(w1.imm); bm.compileInstruction(ins, 0, bc);
+			  for (uint32_t t = 0; t < 200000 && !found; ++t) { uint32_t c = t * 0x9E3779B1u + (uint32_t)idx * 0x85EBCA6Bu + 0x1234567u; nreg.r[r] = (uint64_t)(int64_t)(int32_t)c; int pc = 0;
+				randomx::BytecodeMachine::executeInstruction(bc, pc, sp, cfg, RANDOMX_FLAG_DEFAULT); if (((nreg.r[r] >> b) & 0xFF) == 0xFF) { K = c; found = true; } } }
+			int s0 = 0;
+			p.set_word(s0++, W(op_of("IMUL_R"), r, r, 0, 0)); p.set_word(s0++, W(op_of("IXOR_R"), r, r, 0, K));
+			p.set_word(s0++, w1); p.set_word(s0++, w2);
+			p.set_word(s0++, W(op_of("IMULH_R"), (r + 2) & 7, (r + 3) & 7, 0, 0)); p.set_word(s0++, W(op_of("ISMULH_M"), (r + 3) & 7, (r + 5) & 7, 0x01, 0x100)); p.set_word(s0++, W(op_of("ISTORE"), (r + 1) & 7, (r + 2) & 7, 0x11, 64));
+			p.set_word(s0++, W(op_of("CBRANCH"), r, 0, cond << 4, 0)); p.set_word(s0++, W(op_of("IADD_RS"), (r + 1) & 7, (r + 3) & 7, 0, 0));
+			(void)found;
+		} });
+	}
 	// families that leave the ignored tail of a v1 buffer as no-ops get it filled with a copy of the program's own first words (v2 has no tail)
-	for (auto& f : fam) if (f.name == "writer" || f.name == "count") { auto inner = f.make; f.make = [inner](uint64_t idx, bool v2, ProgBuf& p) { inner(idx, v2, p); if (!v2) for (int s = RANDOMX_PROGRAM_SIZE_V1; s < RANDOMX_PROGRAM_MAX_SIZE; ++s) p.set_word(s, p.word(s - RANDOMX_PROGRAM_SIZE_V1)); }; }
+	for (auto& f : fam) if (f.name == "writer" || f.name == "count" || f.name == "entry") { auto inner = f.make; f.make = [inner](uint64_t idx, bool v2, ProgBuf& p) { inner(idx, v2, p); if (!v2) for (int s = RANDOMX_PROGRAM_SIZE_V1; s < RANDOMX_PROGRAM_MAX_SIZE; ++s) p.set_word(s, p.word(s - RANDOMX_PROGRAM_SIZE_V1)); }; }
 	// ---- sanity floor: AES-generated programs, as a real hash would produce (sampling, reported separately)
 	{
 		Family f{ "aesrand", n_aesrand ? n_aesrand : (thorough ? 2000u : 300u), [=](uint64_t idx, bool v2, ProgBuf& p) {
